@@ -289,9 +289,13 @@ def main():
                 kinds_ += ["ifilt", "icols", "ichild", "ofilt"]
             k = rng.choice(kinds_)
             if k == "ofilt":
-                ch.append(("ofilt", rng.choice(["id", "z"]), rng.choice(list(PY)), rng.choice([0, 1, 2, 3, 7, 8, 9])))
+                # against a constant or against the other outer column
+                ch.append(("ofilt", rng.choice(["id", "z"]), rng.choice(list(PY)),
+                           rng.choice([0, 1, 2, 3, 7, 8, 9]) if rng.random() < 0.75 else rng.choice(["id", "z"])))
             elif k == "ifilt":
-                ch.append(("ifilt", rng.choice(["x", "y"]), rng.choice(list(PY)), rng.choice([10, 11, 15, 20, 21, 30, 31])))
+                # against a constant or against the other column of the inner sequence
+                ch.append(("ifilt", rng.choice(["x", "y"]), rng.choice(list(PY)),
+                           rng.choice([10, 11, 15, 20, 21, 30, 31]) if rng.random() < 0.75 else rng.choice(["x", "y"])))
             elif k == "cols":
                 vis = rng.sample(vis, rng.randint(1, len(vis)))
                 ch.append(("cols", tuple(vis)))
@@ -315,9 +319,10 @@ def main():
         recs = [{"id": a, "in": [{"x": x, "y": y} for x, y in b], "z": c} for a, b, c in nrows]
         for o in ch:
             if o[0] == "ofilt":
-                recs = [rc for rc in recs if PY[o[2]](rc[o[1]], o[3])]
+                recs = [rc for rc in recs if PY[o[2]](rc[o[1]], rc[o[3]] if isinstance(o[3], str) else o[3])]
             elif o[0] == "ifilt":
-                recs = [dict(rc, **{"in": [ir for ir in rc["in"] if PY[o[2]](ir[o[1]], o[3])]}) for rc in recs]
+                recs = [dict(rc, **{"in": [ir for ir in rc["in"] if PY[o[2]](ir[o[1]], ir[o[3]] if isinstance(o[3], str) else o[3])]})
+                        for rc in recs]
         vis, ivis, level, child, ichild = ["id", "in", "z"], ["x", "y"], 0, None, None
         for o in ch:
             if o[0] == "cols":
@@ -350,10 +355,12 @@ def main():
         nd = nd if nd is not None else globals().get("_unused")
         if o[0] == "ofilt":
             left = nd[o[1]]
-            return d[{">": left > o[3], ">=": left >= o[3], "<": left < o[3], "<=": left <= o[3], "=": left == o[3], "!=": left != o[3]}[o[2]]]
+            rt = nd[o[3]] if isinstance(o[3], str) else o[3]
+            return d[{">": left > rt, ">=": left >= rt, "<": left < rt, "<=": left <= rt, "=": left == rt, "!=": left != rt}[o[2]]]
         if o[0] == "ifilt":
             left = nd["in"][o[1]]
-            return d[{">": left > o[3], ">=": left >= o[3], "<": left < o[3], "<=": left <= o[3], "=": left == o[3], "!=": left != o[3]}[o[2]]]
+            rt = nd["in"][o[3]] if isinstance(o[3], str) else o[3]
+            return d[{">": left > rt, ">=": left >= rt, "<": left < rt, "<=": left <= rt, "=": left == rt, "!=": left != rt}[o[2]]]
         if o[0] in ("cols", "icols"):
             return d[list(o[1])]
         if o[0] in ("child", "ichild"):
@@ -370,10 +377,9 @@ def main():
             return "(NCols %s)" % clist(list(o[1]), cs)
         if o[0] in ("child", "ichild"):
             return "(NChild %s)" % cs(o[1])
-        if o[0] == "ofilt":
-            return "(NOFilt %s %s (OConst (%d)))" % (cs(o[1]), REL[o[2]], o[3])
-        if o[0] == "ifilt":
-            return "(NIFilt %s %s (OConst (%d)))" % (cs(o[1]), REL[o[2]], o[3])
+        if o[0] in ("ofilt", "ifilt"):
+            rhs = "(OColumn %s)" % cs(o[3]) if isinstance(o[3], str) else "(OConst (%d))" % o[3]
+            return "(%s %s %s %s)" % ("NOFilt" if o[0] == "ofilt" else "NIFilt", cs(o[1]), REL[o[2]], rhs)
         if o[0] == "slice":
             sl = o[1]
             f = lambda x: "None" if x is None else "(Some (%d))" % x  # noqa
